@@ -23,7 +23,7 @@ RULE = ('fault classes {operand out of range (instruction immediates of every fo
         '(fault line, position, depth, compress).')
 ASSUMPTIONS = ['duplicate label definitions are currently accepted by the assembler, so that clause of the property is vacuous and only checked if refused']
 
-BASE = ['START:', 'K1 = 12', 'addi x8, x8, K1', 'li x5, 0x12345', 'beqz x8, START', 'MID:', 'lw x9, 4(x8)', 'bytes 1 2 3 4', 'align 4',
+BASE = ['START:', 'KR = 40', 'K1 = 12', 'addi x8, x8, K1', 'li x5, 0x12345', 'beqz x8, START', 'MID:', 'lw x9, 4(x8)', 'bytes 1 2 3 4', 'align 4',
         'call END', 'dw MID', 'add x10, x10, x11', 'END:', 'ret']
 
 FAULTS = {
@@ -32,7 +32,8 @@ FAULTS = {
               'c.lw x8, x9, 128', 'c.j 4000', 'csrrw x1, x2, 5000', 'fence 16, 1', 'db 256', 'dh 70000', 'dw 0x100000000', 'dd -0x8000000000000001',
               'bytes 1 2 256', 'shorts 65536', 'ints -2147483649', 'pack <B 256', 'pack <h, 40000', 'addi x8, x8, 32 * 100', 'bytes 1 256', 'pack >H 65536', 'align 0', 'align 0x0', 'align 99999999999999999999', 'align 0x100000001', 'DB 256', 'Dh 70000', 'DW 0x100000000', 'BYTES 1 2 256', 'ADDI x1, x1, 5000', 'Pack <B 256'],
     'unknown_register': ['add x1, x1, foo', 'addi x32, x1, 1', 'mv x1, foo', 'lw foo, 0(x1)', 'sw x1, 0(bar)', 'c.mv x1, foo', 'li foo, 1', 'sub x8, x8, x99',
-                         'slli x8, x8, foo', 'and x8, x8, q', 'neg a9, a0', 'jr x40', 'beq foo, x0, START', 'c.addi foo, 1', 'amoadd.w x1, x2, foo', 'csrrw foo, x1, 1'],
+                         'slli x8, x8, foo', 'and x8, x8, q', 'neg a9, a0', 'jr x40', 'beq foo, x0, START', 'c.addi foo, 1', 'amoadd.w x1, x2, foo', 'csrrw foo, x1, 1',
+                         'addi KR, x9, 1', 'mv KR, x5', 'sub x8, KR, x9', 'lw x9, 4(KR)', 'c.mv KR, x5', 'li KR, 1'],      # a register number that arrives through a constant
     'undefined_label': ['beq x1, x2, nolabel', 'j nolabel', 'jal x1, nolabel', 'jal nolabel', 'call nolabel', 'tail nolabel', 'li x5, nolabel', 'dw nolabel',
                         'beqz x8, nolabel', 'bgt x1, x2, nolabel', 'c.j nolabel', 'c.beqz x8, nolabel', 'lui x5, %hi(nolabel)', 'addi x5, x5, %lo(nolabel)',
                         'li x5, %position(nolabel, 4)', 'auipc x5, %hi(%offset(nolabel))', 'pack <I nolabel'],
